@@ -131,6 +131,10 @@ def space(tier):
             4, grid=(0,))
         add("MultiLinearEinsum, 3 operands, all key orders (vectors), <=2 nodes", X4.ME3_VEC,
             ["ptw:exp", "sum", "gauss_d", "ham", "ham0"], [], 2, grid=(0,))
+    # Hamiltonians over THREE keys (needed for two successive specialisations with a key left over)
+    ham3 = [[h, ["gauss_d", leaf]] for h in ("ham", "ham0") for leaf in X4.ME3_VEC[:2 if tier == "quick" else None]]
+    ham3 = [t for t in ham3 if len(X.tree_keys(t)) >= 3]
+    blocks.append(("Hamiltonians over three keys (two-step specialisation)", {2: ham3}, {2: (0,)}))
     _space_cache[tier] = blocks
     return blocks
 
@@ -300,6 +304,28 @@ def evaluate(case):
             for wm in (False, True):
                 lin1 = sop(ift.Linearization.make_var(xv, wm))
                 _cmp_lin(X, lin1, "simplify", wm, v0, Jexp, Mexp, kcv, out_c, rv, fails, stats)
+            # ---- history: specialise the ALREADY specialised operator once more (first remaining key fixed too);
+            # the result must be the original restricted to the remaining keys, as for a one-step specialisation
+            if len(var) >= 2 and not fails:
+                var2 = var[1:]
+                kcv2 = {k: kc[k] for k in var2}
+                c_out2, sop2 = sop.simplify_for_constant_input(xv.extract_by_keys(var[:1]))
+                if not (isinstance(sop2.domain, ift.MultiDomain) and list(sop2.domain.keys()) == var2):
+                    fails.append(F("domain", "simplify-twice", "twice specialised operator lives on %s, expected %s" % (
+                        list(sop2.domain.keys()) if isinstance(sop2.domain, ift.MultiDomain) else sop2.domain, var2)))
+                else:
+                    xv2 = x.extract_by_keys(var2)
+                    v2 = c03._flatval(sop2(xv2))
+                    if not _close(v2, v0):
+                        fails.append(F("value", "simplify-twice", "value after two successive specialisations differs "
+                                       "from the original (%s)" % _md(v2, v0)))
+                    cv2 = _colidx(keys, var2, kc, NP)
+                    rv2 = _rowidx(var2, var2, kcv2, NP)
+                    Mexp2 = M0[_rowidx(keys, var2, kc, NP)][:, cv2] if M0 is not None else None
+                    for wm in (False, True):
+                        lin2 = sop2(ift.Linearization.make_var(xv2, wm))
+                        _cmp_lin(X, lin2, "simplify-twice", wm, v0, J0[:, cv2], Mexp2, kcv2, out_c, rv2, fails, stats)
+                    stats["two_step"] = stats.get("two_step", 0) + 1
     except Exception as e:      # noqa
         if c03._documented_rejection(e) or _jax_dtype_rejection(e):
             stats["rejected_dtype"] = stats.get("rejected_dtype", 0) + 1
